@@ -9,7 +9,8 @@ dense float64 NumPy; no igraph, no pyunicorn).
 Tolerances (stated per group in `TOL`):
   exact    combinatorial / rational values returned as float64           rtol 1e-9,  atol 1e-12
   linalg   float64 dense/sparse inversions (Newman, Arenas, pagerank, msf) rtol 1e-7,  atol 1e-9
-  arpack   ARPACK eigenvectors computed with tol=1e-8                      rtol 1e-5,  atol 1e-6
+  arpack   ARPACK eigenvectors computed with tol=1e-8 on (A - N^2)^-1       rtol 1e-5,  atol max(1e-6,
+           1e-7 * N^2 / (lambda_1 - lambda_2))  [Ritz residual over spectral gap of the shifted operator]
 No float32 kernel is involved in the measures of this property.
 """
 import json
@@ -122,7 +123,7 @@ class Case:
         if got.shape != exp.shape:
             self.res.append((check, False, nontrivial, "shape %s, expected %s" % (got.shape, exp.shape)))
             return
-        rtol, atol = TOL[tol]
+        rtol, atol = TOL[tol] if isinstance(tol, str) else tol
         g, e = got[mask], exp[mask]
         with np.errstate(invalid="ignore"):
             ok = np.isclose(g, e, rtol=rtol, atol=atol, equal_nan=False) | ((g == e))
@@ -326,12 +327,17 @@ def check_undirected(c, net, A, D, exhaustive_subsets):
         c.cmp("arenas_betweenness/absorbing-walk", net.arenas_betweenness,
               S.arenas_betweenness(A, exact=n <= 5), tol="linalg", nontrivial=n >= 3)
         vals = np.linalg.eigvalsh(np.array(A, dtype=float))
-        if vals[-1] - vals[-2] >= 1e-2:
+        gap = vals[-1] - vals[-2]
+        if gap >= 1e-2:
+            # the code runs ARPACK (tol=1e-8) on the shift-inverted operator (A - sigma)^-1, sigma = N^2; a Ritz
+            # residual tol*|theta| gives an eigenvector error of about tol * (sigma - lambda_1) / (lambda_1 - lambda_2)
+            atol = max(TOL["arpack"][1], 10 * 1e-8 * n * n / gap)
             ev = S.eigenvector_centrality(A)
             nt = len(set(np.round(ev, 6))) > 1
-            c.cmp("eigenvector_centrality/perron", net.eigenvector_centrality, ev, tol="arpack", nontrivial=nt)
-            c.cmp("nsi_eigenvector_centrality/unit-weights", net.nsi_eigenvector_centrality, ev, tol="arpack",
+            c.cmp("eigenvector_centrality/perron", net.eigenvector_centrality, ev, tol=(TOL["arpack"][0], atol),
                   nontrivial=nt)
+            c.cmp("nsi_eigenvector_centrality/unit-weights", net.nsi_eigenvector_centrality, ev,
+                  tol=(TOL["arpack"][0], atol), nontrivial=nt)
     c.cmp("msf_synchronizability/laplacian-spectrum", net.msf_synchronizability, S.msf_synchronizability(A),
           tol="linalg")
     # ---- n.s.i., unit node weights
@@ -350,7 +356,8 @@ def check_undirected(c, net, A, D, exhaustive_subsets):
     c.cmp("nsi_local_clustering/unit-weights-corrected", lambda: net.nsi_local_clustering(typical_weight=1.0),
           [x if k[i] >= 2 else None for i, x in enumerate(lc)], nontrivial=tri)
 
-    # nsi_twinness documented: 0 for unlinked nodes, 1 for linked nodes with the same neighbours
+    # nsi_twinness documented: 'varies from 0.0 for unlinked nodes to 1.0 for linked nodes having exactly the
+    # same neighbors (called twins)': 0 iff unlinked is not claimed; we assert 0 for unlinked, 1 exactly for twins
     def tw():
         T = np.asarray(net.nsi_twinness(), dtype=float)
         for i in range(n):
@@ -360,6 +367,8 @@ def check_undirected(c, net, A, D, exhaustive_subsets):
                 same = S.closed_neighbours(A, i) == S.closed_neighbours(A, j)
                 if (i == j or (A[i][j] and same)) and abs(T[i, j] - 1) > 1e-12:
                     return False, "twins (%d,%d) have twinness %r" % (i, j, T[i, j])
+                if i != j and A[i][j] and not same and not T[i, j] < 1 - 1e-12:
+                    return False, "linked non-twins (%d,%d) have twinness %r" % (i, j, T[i, j])
                 if not -1e-12 <= T[i, j] <= 1 + 1e-12:
                     return False, "twinness (%d,%d) = %r outside [0,1]" % (i, j, T[i, j])
         return True, ""
@@ -417,7 +426,11 @@ def run_case(task):
     with contextlib.redirect_stdout(io.StringIO()):
         if n <= BRUTE_MAX_N and wit["W"] is None:
             oracle_selfcheck(A, directed)
-        net = make_net(A, directed, wit["W"])
+        try:
+            net = make_net(A, directed, wit["W"])
+        except Exception as e:
+            c.res.append(("Network/construct", False, True, "raised %r" % (e,)))
+            return wit_key(wit), wit, c.res
         if wit["W"] is None:
             D = S.bfs_distances(A)
             check_common(c, net, A, directed, D)
@@ -733,8 +746,8 @@ def main():
              + ("undirected n<=4 / directed n<=3" if args.tier == "thorough" else "undirected n<=3 / directed n<=2")
              + " plus seeded samples and real-valued weights on larger graphs. Unit node weights for all n.s.i. "
                "relations. Tolerances: exact-valued measures rtol 1e-9/atol 1e-12; float64 linear algebra (Newman, "
-               "Arenas, pagerank, msf) rtol 1e-7/atol 1e-9; ARPACK eigenvectors (tol=1e-8 in the code) rtol 1e-5/atol "
-               "1e-6. No float32 kernels are involved.")
+               "Arenas, pagerank, msf) rtol 1e-7/atol 1e-9; ARPACK eigenvectors (tol=1e-8 in the code, shift-invert at N^2) rtol 1e-5/atol "
+               "max(1e-6, 1e-7*N^2/spectral gap). No float32 kernels are involved.")
     rule = ("One evaluation = one (measure clause, graph[, link weights][, source/target sets]) comparison of the "
             "library value with the oracle value, restricted to the entries where the definition (or a documented "
             "convention) gives a value. A case is distinct by (clause, labelled adjacency matrix, weight matrix); it "
